@@ -106,4 +106,168 @@ theorem decoded_comb (n m : Nat) (is : List Nat) (es : List (List Nat)) (h1 : is
     cases hie
     exact List.mem_of_getElem? gl
 
+/-! ### admissible node sets, complete hypergraphs -/
+
+/-- a node set of `range n`, written as its strictly increasing member list -/
+def Admissible (n : Nat) (e : List Nat) : Prop := e.Pairwise (· < ·) ∧ ∀ x ∈ e, x < n
+
+theorem mem_combinations (n m : Nat) (e : List Nat) :
+    e ∈ combinations n m ↔ e.length = m ∧ Admissible n e := by
+  unfold combinations Admissible
+  rw [mem_combsAux]
+  simp
+
+theorem nodup_combinations (n m : Nat) : (combinations n m).Nodup := nodup_combsAux _ _ _
+
+theorem length_combinations (n m : Nat) : (combinations n m).length = Nat.choose n m := by
+  unfold combinations; rw [length_combsAux, choose_eq]
+
+theorem admissible_nodup {n : Nat} {e : List Nat} (h : Admissible n e) : e.Nodup :=
+  h.1.imp (fun h => Nat.ne_of_lt h)
+
+theorem mem_combsSizes (n : Nat) : ∀ (cnt start : Nat) (e : List Nat),
+    e ∈ combsSizes n start cnt ↔ (start ≤ e.length ∧ e.length < start + cnt) ∧ Admissible n e := by
+  intro cnt
+  induction cnt with
+  | zero => intro start e; simp [combsSizes]
+  | succ cnt ih =>
+    intro start e
+    simp only [combsSizes, List.mem_append, ih, mem_combinations]
+    constructor
+    · rintro (⟨h1, h2⟩ | ⟨h1, h2⟩)
+      · exact ⟨by omega, h2⟩
+      · exact ⟨by omega, h2⟩
+    · rintro ⟨h1, h2⟩
+      by_cases h : e.length = start
+      · exact Or.inl ⟨h, h2⟩
+      · exact Or.inr ⟨by omega, h2⟩
+
+theorem nodup_combsSizes (n : Nat) : ∀ (cnt start : Nat), (combsSizes n start cnt).Nodup := by
+  intro cnt
+  induction cnt with
+  | zero => intro start; simp [combsSizes]
+  | succ cnt ih =>
+    intro start
+    simp only [combsSizes]
+    rw [List.nodup_append]
+    refine ⟨nodup_combinations _ _, ih _, ?_⟩
+    intro a ha b hb hab
+    subst hab
+    rw [mem_combinations] at ha
+    rw [mem_combsSizes] at hb
+    omega
+
+/-! ### `dedup` on duplicate-free lists -/
+
+theorem foldl_ins_of_nodup {α : Type} [DecidableEq α] : ∀ (l acc : List α), (acc ++ l).Nodup →
+    l.foldl (fun acc x => ins x acc) acc = acc ++ l := by
+  intro l
+  induction l with
+  | nil => intro acc _; simp
+  | cons a t ih =>
+    intro acc h
+    have ha : a ∉ acc := by
+      intro hmem
+      rw [List.nodup_append] at h
+      exact h.2.2 a hmem a (by simp) rfl
+    simp only [List.foldl_cons]
+    have : ins a acc = acc ++ [a] := by unfold ins; rw [if_neg ha]
+    rw [this, ih (acc ++ [a]) (by simpa using h)]
+    simp
+
+theorem dedup_of_nodup {α : Type} [DecidableEq α] {l : List α} (h : l.Nodup) : dedup l = l := by
+  unfold dedup
+  rw [foldl_ins_of_nodup l [] (by simpa using h)]
+  simp
+
+theorem mem_keepUniform (m : Nat) (es : List (List Nat)) (e : List Nat) :
+    e ∈ keepUniform m es ↔ (∃ t ∈ es, dedup t = e) ∧ e.length = m := by
+  unfold keepUniform
+  simp [List.mem_filter, List.mem_map]
+
+theorem keepUniform_id (m : Nat) (es : List (List Nat)) (h : ∀ e ∈ es, e.length = m ∧ e.Nodup) :
+    keepUniform m es = es := by
+  unfold keepUniform
+  have h1 : es.map dedup = es := by
+    conv_rhs => rw [← List.map_id es]
+    apply List.map_congr_left
+    intro e he
+    simpa using dedup_of_nodup (h e he).2
+  rw [h1, List.filter_eq_self]
+  intro e he
+  simpa using (h e he).1
+
+/-! ### fast_random_hypergraph -/
+
+theorem fastRandomOrder_spec (n size : Nat) (p : Prob) (gaps : List Nat) (es : List (List Nat)) (rest : List Nat)
+    (hg : ∀ g ∈ gaps, 1 ≤ g) (h : fastRandomOrder n size p gaps = some (es, rest)) :
+    es.Nodup ∧ (∀ e ∈ es, e ∈ combinations n size) ∧ (p = .zero → es = []) ∧
+      (p = .one → es = combinations n size) ∧ ∃ used, gaps = used ++ rest := by
+  cases p with
+  | zero => simp [fastRandomOrder] at h; obtain ⟨rfl, rfl⟩ := h; simp
+  | one =>
+    simp [fastRandomOrder] at h; obtain ⟨rfl, rfl⟩ := h
+    exact ⟨nodup_combinations _ _, fun e he => he, by simp, by simp, [], by simp⟩
+  | mid =>
+    simp only [fastRandomOrder] at h
+    split at h
+    · simp at h
+    · rename_i is rest' hs
+      split at h
+      · simp at h
+      · rename_i es' hm
+        simp at h; obtain ⟨rfl, rfl⟩ := h
+        obtain ⟨h1, h2, h3⟩ := skipSample_spec _ _ _ _ hg hs
+        obtain ⟨d1, d2, _⟩ := decoded_comb n size is es' h1 h2 hm
+        exact ⟨d1, d2, by simp, by simp, h3⟩
+
+theorem fastRandom_spec (n : Nat) : ∀ (rounds : List (Nat × Prob)) (gaps : List Nat) (es : List (List Nat)) (rest : List Nat),
+    (∀ g ∈ gaps, 1 ≤ g) → fastRandom n rounds gaps = some (es, rest) →
+    (∀ e ∈ es, ∃ r ∈ rounds, r.2 ≠ .zero ∧ e ∈ combinations n r.1) ∧
+    (∀ r ∈ rounds, r.2 = .one → ∀ e ∈ combinations n r.1, e ∈ es) ∧
+    ((rounds.map (·.1)).Nodup → es.Nodup) ∧ ∃ used, gaps = used ++ rest := by
+  intro rounds
+  induction rounds with
+  | nil => intro gaps es rest _ h; simp [fastRandom] at h; obtain ⟨rfl, rfl⟩ := h; simp
+  | cons r rs ih =>
+    intro gaps es rest hg h
+    obtain ⟨size, p⟩ := r
+    simp only [fastRandom] at h
+    split at h
+    · simp at h
+    · rename_i es1 rest1 h1
+      split at h
+      · simp at h
+      · rename_i es2 rest2 h2
+        simp at h; obtain ⟨rfl, rfl⟩ := h
+        obtain ⟨a1, a2, a3, a4, used1, a5⟩ := fastRandomOrder_spec n size p gaps es1 rest1 hg h1
+        have hg1 : ∀ g ∈ rest1, 1 ≤ g := fun g hgm => hg g (by rw [a5]; simp [hgm])
+        obtain ⟨b1, b2, b3, used2, b5⟩ := ih rest1 es2 rest2 hg1 h2
+        refine ⟨?_, ?_, ?_, used1 ++ used2, by rw [a5, b5]; simp⟩
+        · intro e he
+          rw [List.mem_append] at he
+          rcases he with he | he
+          · refine ⟨(size, p), by simp, ?_, a2 e he⟩
+            intro hp; have := a3 hp; subst this; simp at he
+          · obtain ⟨r, hr, hr2⟩ := b1 e he
+            exact ⟨r, by simp [hr], hr2⟩
+        · intro r hr hone e he
+          rw [List.mem_cons] at hr
+          rw [List.mem_append]
+          rcases hr with rfl | hr
+          · left; rw [a4 hone]; exact he
+          · right; exact b2 r hr hone e he
+        · intro hnd
+          simp only [List.map_cons, List.nodup_cons] at hnd
+          rw [List.nodup_append]
+          refine ⟨a1, b3 hnd.2, ?_⟩
+          intro x hx y hy hxy
+          subst hxy
+          obtain ⟨r, hr, -, hr2⟩ := b1 x hy
+          have l1 := ((mem_combinations _ _ _).mp (a2 x hx)).1
+          have l2 := ((mem_combinations _ _ _).mp hr2).1
+          apply hnd.1
+          rw [List.mem_map]
+          exact ⟨r, hr, by omega⟩
+
 end Xgi.C16
